@@ -4,6 +4,12 @@ import copy
 from dataclasses import dataclass, field, asdict
 from typing import Any, Dict, List, Optional
 
+import os as _os
+
+# the repository under test (a scratch copy can be checked by exporting VERIF_REPO)
+REPO = _os.environ.get('VERIF_REPO', '/repo')
+REPO_SRC = REPO + '/src'
+
 TWIN = False  # set by the worker for the reachability twin of an obligation
 
 
